@@ -57,7 +57,7 @@ def f32(x: float) -> float:
 
 LN2 = Decimal(2).ln()
 LN2SQ = LN2 * LN2
-SLACK = Decimal("1e-9")
+SLACK = Decimal("1e-12")
 
 
 def _near(x: Decimal, y: Decimal) -> bool:
@@ -65,7 +65,7 @@ def _near(x: Decimal, y: Decimal) -> bool:
 
 
 def ceil_candidates(x: Decimal):
-    """the integers an honest implementation of ceil(x) may return (either neighbour within 1e-9 relative of a breakpoint)"""
+    """the integers an honest implementation of ceil(x) may return (either neighbour within 1e-12 relative of a breakpoint)"""
     c = int(x.to_integral_value(rounding="ROUND_CEILING"))
     out = {c}
     if _near(x, Decimal(c - 1)):
